@@ -62,3 +62,11 @@ Theorem C11_whole_speed_limit_run : forall (e : Env (F:=R)) pts fmax n x x',
   sl_full_run n e pts fmax x = Ok x' ->
   cinv (snd x') /\ levels_agree (te_of (sl_st (fst x')), snd x').
 Proof. exact sl_full_run_levels. Qed.
+
+(* ... and along every accepted whole walk() of the speed-limit simulation *)
+Theorem C11_whole_walk : forall (e : Env (F:=R)) pts offset_end fmax fuel x x',
+  cinv (snd x) -> levels_agree (te_of (sl_st (fst x)), snd x) ->
+  (forall k y, sl_full_run k e pts fmax x = Ok y -> (1 <= k)%nat -> limits_nonneg (snd y)) ->
+  sl_full_walk fuel e pts offset_end fmax x = Ok x' ->
+  cinv (snd x') /\ levels_agree (te_of (sl_st (fst x')), snd x').
+Proof. exact sl_full_walk_levels. Qed.
